@@ -80,6 +80,11 @@ func run(c *xs.Ctx, r *xs.Result) {
 		}
 		return
 	}
+	if c.Shard == c.NShards-1 {
+		// the free-running concurrent-elections pass (race.go) runs in a child process of its own (it switches consensus
+		// configurations); the last shard starts it first and goes on with its share of the work afterwards
+		runRacePass(c, r)
+	}
 	cfi, mine := shardLayout(c)
 	cf := cfgs[cfi]
 	applyCfg(cf)
